@@ -56,6 +56,7 @@ class Frame:
         self.loops = []         # stack of dict(breaks=[], conts=[])
         self.closure = closure
         self.strong = {}
+        self.last_end = None
 
 
 # ----------------------------------------------------------------------------- joins
